@@ -11,6 +11,7 @@ import (
 	"go/types"
 	"os"
 	"strings"
+	"sync"
 
 	"golang.org/x/tools/go/ssa"
 )
@@ -20,6 +21,7 @@ type targetPanic struct {
 	v    Value
 	site string // function + position where raised
 	kind string // nil-deref, index, type-assert, explicit, ...
+	src  string // trimmed source line text (part of the finding key)
 }
 
 // pathEnd aborts the current path (not a panic of the target program).
@@ -222,7 +224,49 @@ func (fr *frame) where() string {
 }
 
 func (fr *frame) tpanic(kind string, v Value) {
-	panic(&targetPanic{v: v, site: fr.where(), kind: kind})
+	panic(&targetPanic{v: v, site: fr.where(), kind: kind, src: fr.srcLine()})
+}
+
+var srcCache = map[string][]string{}
+var srcMu sync.Mutex
+
+func (fr *frame) srcLine() string {
+	pos := token.NoPos
+	if fr.curInstr != nil {
+		pos = fr.curInstr.Pos()
+		if !pos.IsValid() && fr.curInstr.Block() != nil {
+			for _, i := range fr.curInstr.Block().Instrs {
+				if i.Pos().IsValid() {
+					pos = i.Pos()
+				}
+				if i == fr.curInstr {
+					break
+				}
+			}
+		}
+	}
+	if !pos.IsValid() {
+		return ""
+	}
+	p := fr.in.P.Prog.Fset.Position(pos)
+	srcMu.Lock()
+	defer srcMu.Unlock()
+	lines, ok := srcCache[p.Filename]
+	if !ok {
+		file := p.Filename
+		if real, ok := fr.in.P.Overlay[file]; ok {
+			file = real
+		}
+		b, err := os.ReadFile(file)
+		if err == nil {
+			lines = strings.Split(string(b), "\n")
+		}
+		srcCache[p.Filename] = lines
+	}
+	if p.Line >= 1 && p.Line <= len(lines) {
+		return strings.Join(strings.Fields(lines[p.Line-1]), " ")
+	}
+	return ""
 }
 
 func (fr *frame) get(v ssa.Value) Value {
@@ -653,7 +697,7 @@ func (fr *frame) visit(instr ssa.Instruction) bool {
 	case *ssa.UnOp:
 		fr.env[x] = in.unop(fr, x)
 	case *ssa.BinOp:
-		fr.env[x] = in.binop(fr, x.Op, x.X.Type(), fr.get(x.X), fr.get(x.Y))
+		fr.env[x] = in.binopT(fr, x.Op, x.X.Type(), x.Y.Type(), fr.get(x.X), fr.get(x.Y))
 	case *ssa.Call:
 		fn, args := fr.prepareCall(&x.Call)
 		fr.env[x] = in.call(fr, fn, args, x, false)
